@@ -17,7 +17,7 @@ EVAL_TARGETS = ["Corr/Eval_C20.vo"]
 TIE_LEMMAS = ["Tie_gridops", "Tie_cumsum", "Tie_pad_modes", "Tie_valid_positions", "Tie_signature"]
 IMPORTS = ("From Coq Require Import List Bool ZArith QArith String.\n"
            "From XV Require Import Base.Res Base.Assoc Base.QNOps Base.Seq1D Base.Tensor Model.Axis Model.GridCtor "
-           "Model.Pad Model.Signature Model.UFunc Model.Transform Model.Refuse Corr.Eval_C08 Corr.Eval_C11 Corr.Eval_C20.")
+           "Model.Pad Model.Signature Model.UFunc Model.Transform Model.Refuse Model.Registry Model.Metrics Corr.Eval_C08 Corr.Eval_C11 Corr.Eval_C20.")
 CASE_TYPE = "case20"
 RUN_FN = "run20"
 SCOPE = "nat_scope"
@@ -339,6 +339,68 @@ def coq_ctor_req(req):
     return f"(R_ctor {term} {G.ckw(rawfill, cfill)})"
 
 
+# ---------------------------------------------------------------- metric operations
+def gen_metric(rng):
+    from . import c10 as K10
+    base = K10.generate(random_child(rng), "quick")
+    c = copy.deepcopy(base[rng.randrange(len(base))])
+    axes = c["axes"] if isinstance(c["axes"], list) else [c["axes"]]
+    return {"history": c["history"], "n_ctor": c.get("n_ctor", 0), "adims": list(c["adims"]), "axes": list(axes),
+            "op": rng.choice(["get_metric", "integrate", "average"]), "how": None}
+
+
+def edit_metric(rng, req):
+    from . import c10 as K10
+    choice = rng.choice(["axis-not-in-grid", "data-lacks-dim", "data-lacks-dim", "data-two-dims"])
+    a = rng.choice(req["axes"])
+    if choice == "axis-not-in-grid":
+        req["axes"] = [("Q" if x == a else x) for x in req["axes"]]
+    elif choice == "data-lacks-dim":
+        # the dimension is taken away: by a scalar selection that leaves its label behind as a scalar
+        # coordinate, by one that drops it, or by a reduction
+        req["how"] = [rng.choice(["isel", "isel_drop", "mean"]), [d for d in req["adims"] if d in K10.AXDIMS[a]][0]]
+    else:
+        have = [d for d in req["adims"] if d in K10.AXDIMS[a]]
+        more = [d for d in K10.AXDIMS[a] if d not in have]
+        if not more:
+            return None
+        req["adims"] = req["adims"] + [rng.choice(more)]
+    return choice
+
+
+def metric_array_dims(req):
+    return [d for d in req["adims"] if not (req["how"] and d == req["how"][1])]
+
+
+def run_metric(req):
+    import warnings
+    import numpy as np
+    import xarray as xr
+    from . import c10 as K10
+    ds, g = K10.build({"history": req["history"], "n_ctor": req["n_ctor"]})
+    arr = xr.DataArray(np.ones([K10.SIZES[d] for d in req["adims"]]), dims=req["adims"],
+                       coords={d: ds[d] for d in req["adims"] if d in ds.coords})
+    if req["how"]:
+        how, d = req["how"]
+        arr = arr.isel({d: 1}) if how == "isel" else arr.isel({d: 1}, drop=True) if how == "isel_drop" else arr.mean(d)
+    assert list(arr.dims) == metric_array_dims(req)
+    with warnings.catch_warnings():
+        warnings.simplefilter("ignore")
+        r = getattr(g, req["op"])(arr, tuple(req["axes"]) if req["op"] == "get_metric" else list(req["axes"]))
+    assert isinstance(r, xr.DataArray)
+
+
+def coq_metric(req):
+    from . import c10 as K10
+    cs = K10.cstrs
+    env = ("{| re_axes := [\"X\"; \"Y\"; \"Z\"]; re_vars := " +
+           C.clist(f"({C.cstr(n)}, {cs(d)})" for n, d in K10.DIMS.items()) + " |}")
+    hist = C.clist("{| rc_key := " + cs(c["key"]) + "; rc_names := " + cs(c["names"]) +
+                   f"; rc_overwrite := {C.cbool(c['overwrite'])} |}}" for c in req["history"])
+    axd = C.clist(f"({C.cstr(a)}, {cs(d)})" for a, d in K10.AXDIMS.items())
+    return f"(R_metric {axd} {env} {hist} {cs(metric_array_dims(req))} {cs(req['axes'])})"
+
+
 # ---------------------------------------------------------------- driver
 def generate(rng, tier):
     n = 420 if tier == "quick" else 6000
@@ -349,7 +411,10 @@ def generate(rng, tier):
         i += 1
         r = i % 10
         edited = rng.random() > 0.15
-        if r < 5:
+        if r == 4:
+            req = gen_metric(rng)
+            kind, ed = "metric", (edit_metric(rng, req) if edited else "none")
+        elif r < 5:
             b = copy.deepcopy(base_ops[i % len(base_ops)])
             req = {"ctor": b["ctor"], "dims": b["dims"], "vals": b["vals"], "call": b["call"]}
             if isinstance(req["ctor"]["periodic"], list):
@@ -364,6 +429,9 @@ def generate(rng, tier):
         elif r < 9:
             req = K11.gen_case(rng)
             kind, ed = "ufunc", (edit_ufunc(rng, req) if edited else "none")
+        elif i % 20 == 9 or False:
+            req = gen_metric(rng)
+            kind, ed = "metric", (edit_metric(rng, req) if edited else "none")
         else:
             base = G.generate(random_child(rng), "quick")[0]["ctor"]
             if isinstance(base["periodic"], list):
@@ -399,6 +467,8 @@ def run_impl(case):
                 out["raised"] = o["err"]
                 out["msg"] = o.get("msg")
                 return out
+        elif kind == "metric":
+            run_metric(req)
         else:
             run_ctor(req)
         out["raised"] = None
@@ -420,6 +490,8 @@ def coq_case(case, obs):
         term = "(R_transform " + K8.coq_tcall(req) + ")"
     elif kind == "ufunc":
         term = "(R_ufunc " + K11.coq_case(req, obs["u"]) + ")"
+    elif kind == "metric":
+        term = coq_metric(req)
     else:
         term = coq_ctor_req(req)
     raised = "None" if obs["raised"] is None else f"(Some {C.cekind(obs['raised'])})"
